@@ -744,7 +744,8 @@ def dual_check(ct, case, rec):
 
 def smid_strategy(ct, tier):
     return st.fixed_dictionaries({"n": st.lists(st.integers(2, 3), min_size=3, max_size=3), "size": st.lists(fl(0.5, 2), min_size=3, max_size=3),
-                                  "jseed": st.integers(0, 2**16), "jitter": st.sampled_from([0.0, 0.15]), "how": st.sampled_from(["convert", "add"]), "volumes": st.booleans()})
+                                  "jseed": st.integers(0, 2**16), "jitter": st.sampled_from([0.0, 0.15]), "how": st.sampled_from(["convert", "add", "add-after-curving"]),
+                                  "volumes": st.booleans()})
 
 
 def smid_check(ct, case, rec):
@@ -753,7 +754,8 @@ def smid_check(ct, case, rec):
     import itertools
 
     fem = import_felupe()
-    dim = 2 if ct == "triangle" else 3
+    dim = 2 if ct in ("triangle", "quad") else 3
+    simplex = ct in ("triangle", "tetra")
     m = (fem.Rectangle if dim == 2 else fem.Cube)(b=tuple(case["size"][:dim]), n=tuple(case["n"][:dim]))
     X = np.array(m.points)
     if case["jitter"]:
@@ -762,19 +764,37 @@ def smid_check(ct, case, rec):
         h = float(np.min((hi - lo) / (np.array(case["n"][:dim]) - 1)))
         X[inner] += case["jitter"] * h * np.random.default_rng(case["jseed"]).uniform(-1, 1, (int(inner.sum()), dim))
         m.update(points=X)
-    m = m.triangulate()
+    if simplex:
+        m = m.triangulate()
     P0, C0 = np.array(m.points, float), np.array(m.cells)
-    nv = dim + 1
+    nv = dim + 1 if simplex else 2**dim
     vols = case["volumes"] and dim == 3
+    curved = case["how"] == "add-after-curving"
     if case["how"] == "convert":
         m2 = m.convert(order=2, calc_midfaces=True, calc_midvolumes=vols)
     else:
-        m2 = m.add_midpoints_edges().add_midpoints_faces()
+        m2 = m.add_midpoints_edges()
+        if curved:
+            # the mid-edge points are moved (curved edges) BEFORE faces and volumes get their points: those are the centroids of
+            # the corner points of the face / cell all the same
+            Pq = np.array(m2.points, float)
+            hq = float(np.min(np.array(case["size"][:dim]) / (np.array(case["n"][:dim]) - 1)))
+            Pq[len(P0):] += 0.08 * hq * np.random.default_rng(case["jseed"] + 3).uniform(-1, 1, (len(Pq) - len(P0), dim))
+            m2.update(points=Pq)
+            rec.label("mid-edge-points-moved-before-faces-and-volumes")
+        m2 = m2.add_midpoints_faces()
         if vols:
             m2 = m2.add_midpoints_volumes()
     P, C = np.array(m2.points, float), np.array(m2.cells)
-    edges = list(itertools.combinations(range(nv), 2))
-    faces = [tuple(range(3))] if dim == 2 else list(itertools.combinations(range(4), 3))
+    if simplex:
+        edges = list(itertools.combinations(range(nv), 2))
+        faces = [tuple(range(3))] if dim == 2 else list(itertools.combinations(range(4), 3))
+    elif dim == 2:
+        edges = [(0, 1), (1, 2), (2, 3), (3, 0)]
+        faces = [(0, 1, 2, 3)]
+    else:
+        edges = [(0, 1), (1, 2), (2, 3), (3, 0), (4, 5), (5, 6), (6, 7), (7, 4), (0, 4), (1, 5), (2, 6), (3, 7)]
+        faces = [(0, 3, 2, 1), (4, 5, 6, 7), (0, 1, 5, 4), (1, 2, 6, 5), (2, 3, 7, 6), (3, 0, 4, 7)]
     ncol = nv + len(edges) + len(faces) + (1 if vols else 0)
     rec.nontrivial = len(C0) >= 2
     if not rec.require("simplex-midpoints:shape", C.shape == (len(C0), ncol), [C.shape, (len(C0), ncol)]):
@@ -788,7 +808,8 @@ def smid_check(ct, case, rec):
 
     e_got = P[C[:, nv : nv + len(edges)]]
     e_ref = np.stack([(V[:, a] + V[:, b]) / 2 for a, b in edges], 1)
-    rec.require("simplex-midpoints:edge-points-are-the-edge-centroids", as_set(e_got) == as_set(e_ref))
+    if not curved:
+        rec.require("simplex-midpoints:edge-points-are-the-edge-centroids", as_set(e_got) == as_set(e_ref))
     f_got = P[C[:, nv + len(edges) : nv + len(edges) + len(faces)]]
     f_ref = np.stack([V[:, list(f)].mean(1) for f in faces], 1)
     rec.require("simplex-midpoints:face-points-are-the-face-centroids", as_set(f_got) == as_set(f_ref), {"cell0": [f_got[0].tolist(), f_ref[0].tolist()]})
@@ -807,7 +828,7 @@ def smid_check(ct, case, rec):
 
 
 FAMILIES = [
-    Family("simplex-midpoints", ["triangle", "tetra"], smid_check, strategy=smid_strategy, n={"quick": 8, "thorough": 200}, chunk=8),
+    Family("simplex-midpoints", ["triangle", "tetra", "quad", "hexahedron"], smid_check, strategy=smid_strategy, n={"quick": 8, "thorough": 200}, chunk=8),
     Family("dual", ["quad", "hexahedron", "triangle", "tetra", "quad8", "hexahedron20", "tetra10"], dual_check, strategy=dual_strategy, n={"quick": 8, "thorough": 150}, chunk=8),
     Family("merge-tolerance", [-1, 0, 1, 2, 4], mtol_check, strategy=mtol_strategy, n={"quick": 8, "thorough": 200}, chunk=8),
     Family("revolve-side", REV_AXIS, rev_check, strategy=rev_strategy, n={"quick": 6, "thorough": 200}, chunk=6),
